@@ -20,6 +20,7 @@ import Postcard.Spec.Conforms
 import Postcard.Model.SexpRTy
 import Postcard.Model.SexpJson
 import Postcard.Model.Dyn
+import Postcard.Model.DynCost
 import Postcard.Spec.Cobs
 import Postcard.Spec.Fnv
 /-
@@ -400,7 +401,10 @@ def handle (line : String) : String :=
       | _, _ => "bad-op"
     | "dynde", [sx, .atom h] =>
       match schemaOfSexp sx, bytesOfHex h with
-      | some sc, some bs => dynDeStr sc bs
+      | some sc, some bs =>
+        -- the model's allocation count and the constants of `dyn_alloc_bound` ride along (projected away
+        -- before the answers are compared; the check relates them to the measured allocation)
+        dynDeStr sc bs ++ s!" cost={allocDyn hwFloatOps sc bs} mwp={if minWidthPos sc then 1 else 0} w={allocW' sc}"
       | _, _ => "bad-op"
     | "hasty", [t, v] =>
       match tyOfSexp t, valOfSexp v with
